@@ -43,10 +43,12 @@ type c16Flight struct {
 }
 
 type c16Input struct {
-	Kind    string      `json:"kind"` // policy | flight
+	Kind    string      `json:"kind"` // policy | flight | late
 	Allow   bool        `json:"allow,omitempty"`
 	EP      int         `json:"ep,omitempty"` // 0 Secret, 1 LookupSecret, 2 NewUpdater, 3 Apply
 	Name    string      `json:"name,omitempty"`
+	EP2     int         `json:"ep2,omitempty"`    // late: entry point of the caller that overtakes (0 = nobody)
+	Change  bool        `json:"change,omitempty"` // late: the service activates a new version before the held caller is released
 	Flights []c16Flight `json:"flights,omitempty"`
 }
 
@@ -162,6 +164,7 @@ type c16Svc struct {
 	conc    map[string]int
 	maxc    map[string]int
 	polled  map[string]bool
+	pollver map[string]uint32 // the version the client said it holds, per name, at the last poll
 	nget    int
 	logging bool
 }
@@ -235,6 +238,9 @@ func (s *c16Svc) GetIfChanged(ctx context.Context, name string, old api.SecretVe
 	s.mu.Lock()
 	defer s.mu.Unlock()
 	s.polled[name] = true
+	if s.pollver != nil {
+		s.pollver[name] = uint32(old)
+	}
 	if _, ok := s.static[name]; ok {
 		return nil, api.ErrValueNotChanged
 	}
@@ -302,6 +308,104 @@ func c16Policy(t *testing.T, in c16Input) Record {
 		Tags: []string{fmt.Sprintf("policy-allow=%v", in.Allow)},
 		Coq: fmt.Sprintf("CPolicy %s %s %d %s %s %d %d %d", coqBool(in.Allow), c16Decl, in.EP, coqBytes([]byte(in.Name)), svcHas, cls, nreq, tok)}
 	return rec
+}
+
+// ---- an overtaken flight (F8): the caller is held between its unknown-name check and the flight by a
+// context whose Deadline() blocks (c15GateCtx, c15.go); somebody else completes a lookup of the name;
+// the service may activate a new version; the held caller is released and its flight's locked part
+// (Store.lookup_finish) runs on a name that has a value by now.
+
+func c16Late(t *testing.T, in c16Input) Record {
+	clsA, tokA, nreqA, clsB, tokB, tokS, verP := 9, 0, 0, 9, 0, 0, 0 // 9 = did not run
+	held := false
+	second := "None"
+	bubble(t, func(t *testing.T) {
+		svc := c16NewSvc()
+		svc.pollver = map[string]uint32{}
+		svc.static["x"] = c16SV{ver: 7, tok: 5}
+		ctx, cancel := context.WithCancel(context.Background())
+		defer cancel()
+		st, err := setec.NewStore(ctx, setec.StoreConfig{Client: svc, Secrets: []string{"a"}, AllowLookup: true,
+			PollInterval: -1, Logf: func(string, ...any) {}})
+		if err != nil {
+			clsA = 9
+			return
+		}
+		defer st.Close()
+		class := func(tk int, isNil bool, err error) (int, int) {
+			switch {
+			case err != nil:
+				return 3, 0
+			case isNil:
+				return 1, 0
+			}
+			return 0, tk
+		}
+		g := &c15GateCtx{Context: ctx, gate: make(chan struct{})}
+		done := make(chan struct{})
+		go func() {
+			defer close(done)
+			clsA, tokA = class(c16Call(g, st, in.EP, "x"))
+		}()
+		synctest.Wait()
+		held = g.entered.Load()
+		// B runs in its own goroutine: an implementation in which the held caller already owns the flight
+		// would make B join it and wait for the gate; that must become an observation (class 8), not a
+		// deadlocked harness
+		doneB := make(chan struct{})
+		blockedB := false
+		if in.EP2 != 0 {
+			go func() {
+				defer close(doneB)
+				clsB, tokB = class(c16Call(ctx, st, in.EP2, "x"))
+			}()
+			synctest.Wait()
+			select {
+			case <-doneB:
+			default:
+				blockedB = true
+			}
+		} else {
+			close(doneB)
+		}
+		if in.Change {
+			svc.mu.Lock()
+			svc.static["x"] = c16SV{ver: 8, tok: 6}
+			svc.mu.Unlock()
+		}
+		svc.mu.Lock()
+		before := svc.nget
+		sv := svc.static["x"]
+		svc.mu.Unlock()
+		second = fmt.Sprintf("(Some (%d, %d))", sv.ver, sv.tok)
+		close(g.gate)
+		<-done
+		<-doneB
+		if blockedB {
+			clsB = 8 // the overtaker could not complete while the other caller was held
+		}
+		svc.mu.Lock()
+		nreqA = svc.nget - before
+		svc.mu.Unlock()
+		if h := st.Secret("x"); h != nil {
+			tokS = c16Tok(h.Get())
+		}
+		if err := st.Refresh(ctx); err == nil {
+			svc.mu.Lock()
+			verP = int(svc.pollver["x"])
+			svc.mu.Unlock()
+		}
+	})
+	first := "None"
+	if in.EP2 != 0 {
+		first = "(Some (7, 5))"
+	}
+	obs := map[string]any{"held": held, "late_class": clsA, "late_token": tokA, "late_requests": nreqA,
+		"overtaker_class": clsB, "overtaker_token": tokB, "served_token": tokS, "polled_version": verP}
+	return Record{Kind: "late", Input: in, Obs: obs, Key: fmt.Sprintf("late:%d:%d:%v", in.EP, in.EP2, in.Change),
+		Nontrivial: in.EP2 != 0, Tags: []string{"late-flight"},
+		Coq: fmt.Sprintf("CLate %s %s %s %s %s %d %d %d %d %d %d %d", c16Decl, coqBytes([]byte("x")), first, second, coqBool(held),
+			clsB, tokB, clsA, tokA, nreqA, tokS, verP)}
 }
 
 // ---- flight cases
@@ -600,6 +704,8 @@ func runC16(o Opts) {
 			var recs []Record
 			if in.Kind == "policy" {
 				recs = []Record{c16Policy(t, in)}
+			} else if in.Kind == "late" {
+				recs = []Record{c16Late(t, in)}
 			} else {
 				recs = c16Flights(t, in)
 			}
@@ -632,6 +738,18 @@ func runC16(o Opts) {
 				}
 			}
 		}
+		// overtaken flights (F8): every pair of entry points, with and without a version change; EP2 = 0: nobody
+		// overtakes, the held caller's own flight installs
+		for ep := 1; ep < 4; ep++ {
+			for ep2 := 0; ep2 < 4; ep2++ {
+				for _, change := range []bool{false, true} {
+					recs := runOne(c16Input{Kind: "late", Allow: true, EP: ep, EP2: ep2, Change: change}, false)
+					if ep == 1 && ep2 == 2 && change {
+						selfSrc = append(selfSrc, recs[0])
+					}
+				}
+			}
+		}
 		n := 350
 		if o.Tier == "thorough" {
 			n = 6000
@@ -655,7 +773,10 @@ func runC16(o Opts) {
 		for i, rec := range selfSrc {
 			st := rec
 			st.SelfTest, st.SelfOf = true, rec.ID
-			if rec.Kind == "policy" {
+			if rec.Kind == "late" {
+				// pretend the store served the late flight's answer (the unnotified overwrite of F8)
+				st.Coq = fmt.Sprintf("CLate %s %s (Some (7, 5)) (Some (8, 6)) true 0 5 0 6 1 6 8", c16Decl, coqBytes([]byte("x")))
+			} else if rec.Kind == "policy" {
 				in := rec.Input.(c16Input)
 				// pretend the refused lookup had sent a request
 				st.Coq = fmt.Sprintf("CPolicy %s %s %d %s %s %d %d %d", coqBool(in.Allow), c16Decl, in.EP, coqBytes([]byte(in.Name)), "(Some (7, 5))", 3, 1, 0)
